@@ -416,6 +416,14 @@ func cmdCheck(args []string) {
 			missing++
 		}
 	}
+	if cf := os.Getenv("GOVC_CORPUS"); cf != "" {
+		if b, err := os.ReadFile(cf); err == nil {
+			var v any
+			if json.Unmarshal(b, &v) == nil {
+				res.Extra["must_fail_corpus"] = v
+			}
+		}
+	}
 	res.Extra["expected_green"] = len(green)
 	res.Extra["expected_green_missing"] = missing
 	for _, b := range res.Bounded {
